@@ -1,13 +1,13 @@
----- MODULE MC_C15_quick_a_norm2 ----
+---- MODULE MC_C15_quick_e_arity3 ----
 EXTENDS CircuitSys
-c_Dom == <<2, 3>>
+c_Dom == <<2, 2, 2>>
 c_KSet == {1, 2}
-c_MaxK == 8
+c_MaxK == 2
 c_MaxL == 5
-c_MaxIn == 2
+c_MaxIn == 3
 c_InKindSeq == <<"catp">>
-c_InnerKinds == {"had", "kron", "mix", "sum"}
-c_MaxAr == 2
+c_InnerKinds == {"had", "sum"}
+c_MaxAr == 3
 c_FreeOrder == FALSE
 c_MaxOuts == 1
 c_MaxBases == 1
@@ -27,8 +27,8 @@ c_GradMod == 0
 c_QueryOn == FALSE
 c_J == 1
 c_EmitOps == {0}
-c_EmitMod == 12
+c_EmitMod == 1
 c_EmitRes == 0
-c_EmitSmall == 3
-c_EmitFilter == "all"
+c_EmitSmall == 0
+c_EmitFilter == "ar3"
 ====
